@@ -9,7 +9,8 @@ CONSTANTS Capacity, FixAbsent, FixEqWrite, FixTopLevel, SharedKeys,
           Vals,          \* values a keyed source / the singleton may hold
           MaxOps,        \* depth bound on histories
           MaxRetain,     \* bound on simultaneous retains per node
-          Shadow,        \* TRUE: also run the pinned design BO as shadow state (see below)
+          Shadow,        \* TRUE: also run a variant design BO as shadow state (see below)
+          SFixAbsent, SFixEqWrite, SFixTopLevel, SShared,
           Emit           \* "all": one REPLAY per generated transition; "final": only complete histories; "none"
 
 KeyOrderAB == <<"A", "B">>      \* cfg: KeyOrder <- KeyOrderAB
@@ -24,12 +25,13 @@ NoPred == [evs |-> <<>>, res |-> [t |-> "val", v |-> 0]]
 A == INSTANCE PicoA
 B == INSTANCE PicoB WITH KeyOf <- KeyOfNode
 
-\* The pinned (unrepaired) design, run as a SHADOW next to B when Shadow = TRUE.  Its state is part of
-\* the view, so two histories are merged only if they also leave the pinned design in the same state:
-\* every history that the repaired and the pinned implementation distinguish gets its own replay,
-\* which makes a regression of any of the repaired defects show up in the exhaustive part of the check.
-KeyOfShared(n) == IF n \in {"twin:a", "twin:b"} THEN "twin" ELSE n
-BO == INSTANCE PicoB WITH KeyOf <- KeyOfShared, FixAbsent <- FALSE, FixEqWrite <- FALSE, FixTopLevel <- FALSE
+\* A VARIANT design (the pinned design, or the repaired one with a single repair undone: switches
+\* SFixAbsent, SFixEqWrite, SFixTopLevel, SShared), run as a SHADOW next to B when Shadow = TRUE.  Its
+\* state is part of the view, so two histories are merged only if they also leave the variant in the
+\* same state: every history that the modelled and the variant implementation distinguish gets its own
+\* replay, which makes a regression to that variant show up in the exhaustive part of the check.
+KeyOfShadow(n) == IF SShared /\ n \in {"twin:a", "twin:b"} THEN "twin" ELSE n
+BO == INSTANCE PicoB WITH KeyOf <- KeyOfShadow, FixAbsent <- SFixAbsent, FixEqWrite <- SFixEqWrite, FixTopLevel <- SFixTopLevel
 
 VARIABLES db,     \* layer B state
           dbo,    \* shadow: state of the pinned design (constant when Shadow = FALSE)
